@@ -404,10 +404,15 @@ def check_empty(case, out):
             if len(bk) > 2 else None
         exc = None
         try:
+            def newpoints(count):
+                # (points of the same kind as those of the sibling curves: later steps combine them)
+                if case["dim"]:
+                    return lib.conv_points([[F(i + k, 3) + j for j in range(case["dim"])] for i in range(count)], num)
+                return [lib.conv_val(F(i + k, 3), num) for i in range(count)]
             if name == "ctrlpoints_set":
-                e.ctrlpoints = [lib.conv_val(F(i + k, 3), num) for i in range(e.npts)]
+                e.ctrlpoints = newpoints(e.npts)
             elif name == "ctrlpoints_set_badlen":
-                e.ctrlpoints = [lib.conv_val(F(i + k, 3), num) for i in range(e.npts + 1 + k % 2)]
+                e.ctrlpoints = newpoints(e.npts + 1 + k % 2)
             elif name == "copy_mutate_empty":
                 cp = _copy.copy(e) if k % 2 else _copy.deepcopy(e)
                 if cp is e or cp.knotvector is e.knotvector:
